@@ -26,7 +26,7 @@ fn worker(first) {
   return got;
 }
 """
-MIX = "fn mix(a, b) { if b == nil { b = 0; } return (a * 31 + b) %% %d; }\n" % M
+MIX = "fn mix(a, b) { if b == nil { b = 0; } if type(b) == Vec { b = b[0] + 1; } return (a * 31 + b) %% %d; }\n" % M
 HM_GTICK0 = 500000
 
 
@@ -59,7 +59,7 @@ class Gen:
             elif k < 22:
                 out.append(["ev", self.id()])
             elif k < 40:
-                out.append(["yield", r.chance(0.7)])
+                out.append(["yield", r.weighted([(3, False), (5, True), (2, "vec")])])
             elif k < 48:
                 out.append(["helper", r.range(1, 3), self.id()])
             elif k < 62:
@@ -126,7 +126,7 @@ def render(ir):
         emit('var t = print(("pick", %d)); var m = print(("pick", 4)); var v = print(("pick", 1000));' % nf, ind + 1)
         emit("try {", ind + 1)
         emit("var r = nil;", ind + 2)
-        emit("if m == 0 { r = fibers[t].call(); } else if m == 3 { r = fibers[t].call(v, v); } else { r = fibers[t].call(v); }", ind + 2)
+        emit("if m == 0 { r = fibers[t].call(); } else if m == 3 { r = fibers[t].call(v, v); } else if m == 2 { r = fibers[t].call([v]); } else { r = fibers[t].call(v); }", ind + 2)
         if target_inbox:
             emit("inbox = r;", ind + 2)
         emit("gtick = gtick + 1;", ind + 2)
@@ -147,7 +147,7 @@ def render(ir):
             elif k == "ev":
                 emit('print(("ev", %d, me, acc, inbox));' % st[1], ind)
             elif k == "yield":
-                emit("inbox = Fiber.yield(acc);" if st[1] else "inbox = Fiber.yield();", ind)
+                emit("inbox = Fiber.yield([acc]);" if st[1] == "vec" else ("inbox = Fiber.yield(acc);" if st[1] else "inbox = Fiber.yield();"), ind)
             elif k == "helper":
                 emit("inbox = %sh%d(me, acc);" % (hq, st[1]), ind)
                 emit("gtick = gtick + 1;", ind)
@@ -290,7 +290,11 @@ class Fatal(Exception):
 
 
 def enc(x):
-    return None if x is None else num(x)
+    if x is None:
+        return None
+    if isinstance(x, tuple):
+        return {"v": [num(x[1])]}        # a fresh vector travelling between fibers
+    return num(x)
 
 
 def model(ir, tape, faults, chooser=None):
@@ -347,6 +351,8 @@ def model(ir, tape, faults, chooser=None):
     def mixf(a, bb):
         if bb is None:
             bb = 0
+        if isinstance(bb, tuple):
+            bb = bb[1] + 1
         return (a * 31 + bb) % M
 
     def do_call(frm, t, m, v):
@@ -365,7 +371,9 @@ def model(ir, tape, faults, chooser=None):
         if state[t] == "active":
             probes.inc("illegal:reentry_self" if t == frm else "illegal:reentry_waiting")
             raise FErr(["RuntimeError", "TypeError"])
-        arg = v if nargs == 1 else None
+        arg = (("vec", v) if m == 2 else v) if nargs == 1 else None
+        if m == 2:
+            probes.inc("transfer:call_with_heap_value")
         depth[0] += 1
         probes.max("nesting_depth", depth[0])
         try:
@@ -437,8 +445,8 @@ def model(ir, tape, faults, chooser=None):
                 elif k == "ev":
                     ev.append([num(st[1]), num(me), num(st8["acc"]), enc(st8["inbox"])])
                 elif k == "yield":
-                    probes.inc("transfer:yield_with_value" if st[1] else "transfer:yield_without_value")
-                    st8["inbox"] = yield (st8["acc"] if st[1] else None)
+                    probes.inc("transfer:yield_with_heap_value" if st[1] == "vec" else ("transfer:yield_with_value" if st[1] else "transfer:yield_without_value"))
+                    st8["inbox"] = yield (("vec", st8["acc"]) if st[1] == "vec" else (st8["acc"] if st[1] else None))
                 elif k == "helper":
                     d = st[1]
                     locs = []
